@@ -199,6 +199,11 @@ func (o *OracleC11) AfterBlock(c *Chain, b *BlockCtx) []*Violation {
 			if (m.K == "propose_dispute" || m.K == "add_fee") && m.B {
 				busy["*frombond*"] = true
 			}
+			// a refund or reward put back into stake changes somebody's holdings (the payer named in the message, its
+			// selectors): anybody may send these on another's behalf
+			if m.K == "withdraw_fee_refund" || m.K == "claim_reward" || m.K == "withdraw_tip" {
+				busy["*frombond*"] = true
+			}
 		}
 	}
 	executedNow := false
